@@ -2,7 +2,7 @@
 ENGINES = [
     {"name": "meshx", "path": "/verif/kit (world.go, node.go, conn.go)", "serves_properties": ["C01", "C06", "C07", "C08", "C09", "C10"],
      "kind_free_text": "event-level explorer over a world of real routers (real state/peering/switch/router modules per node) wired by virtual links or adversary-owned connections; one event = one synchronous call into the real handlers, virtual time via testing/synctest"},
-    {"name": "seqx", "path": "/verif/kit (bfs.go) + /verif/checks/*", "serves_properties": ["C01", "C02", "C03", "C11", "C12", "C17", "C19"],
+    {"name": "seqx", "path": "/verif/kit (bfs.go) + /verif/checks/*", "serves_properties": ["C01", "C02", "C03", "C11", "C12", "C17", "C18", "C19"],
      "kind_free_text": "sequential bounded-exhaustive / explicit-state explorer over the real objects (fresh object + replay per path, canonical state hash)"},
 ]
 
@@ -23,6 +23,13 @@ META = {
         "design_ref": "DESIGN.md §2 C17",
         "text": "Every sequence of up to 4 (thorough 5) operations over new (sizes at every pooled tier boundary), parse (of a live frame's bytes and of canned network bytes, through a pooled slice like the link reader), clone, reply/replyTo, set-appendix (0, small, tier-crossing, 10000, 10001), mutate, set-link and release, with at most three live frames on one shared builder, is executed on the real code; after every step every live frame is compared byte-for-byte and field-for-field (addresses, type, block lengths, receive link) with a shadow model, new/parsed frames are checked for stale bytes in their margins and stale link references, and appendix growth must succeed up to the protocol limit while keeping the link margins. Pools are deterministic (single P, GC off) and a gate proves that recycling happens.",
         "note": "sync.Pool determinism relies on GOMAXPROCS(1)+GC off (gate checked at start); sizes between the enumerated tier-boundary sizes are assumed to behave alike; concurrency of pool use is out of scope here.",
+    },
+    "C18": {
+        "engine": "seqx+vos",
+        "technique": "exhaustive crash-point enumeration (every step boundary, every byte offset of every write) of the real save path over an in-memory file system, recovery by the real loader",
+        "design_ref": "DESIGN.md §2 C18",
+        "text": "The storage package is compiled with its os import rewritten (build overlay generated from /repo's current tree) to an in-memory file system that logs open/truncate, write, close, rename and remove steps and can kill the process before any step or at any byte offset of a write. For states of {0,1,2,5}x{0,1,2,5} routers/mappings in three value flavours (empty, unicode, 4 kB and JSON-hostile strings, nil/present public info, offline flag, used/unused) plus a 50- (thorough 200-) entry state, over three previous-file situations (absent, two other complete states), the real Stop() is run once to obtain the step log and then once per crash point; the real NewJSONFileStorage must load the image and the loaded content (every router field incl. timestamps, every mapping) must equal the previous or the new state. Save->load equality is checked for every state.",
+        "note": "Crash model is process kill (completed steps persist, in-progress write persists a prefix), as in the statement; power-loss write reordering and fsync semantics are out of scope. Large writes are covered at every offset in the first/last 1 kB and every 97th offset in between (cap stated in the evidence).",
     },
     "C19": {
         "engine": "seqx",
